@@ -99,13 +99,13 @@ def Dfa.idRel (d : Dfa) : Rel := (List.range d.states).map fun p => (p, p)
 def Dfa.clsRel (d : Dfa) (ks : List Nat) : Rel :=
   (List.range d.states).flatMap fun p => ks.map fun k => (p, d.δ p k)
 
-/-- `comp X Y` = first `X`, then `Y`. -/
+def addNew (X Y : Rel) : Rel := Y.foldl (fun acc e => if acc.contains e then acc else acc ++ [e]) X
+
+/-- `comp X Y` = first `X`, then `Y` (without duplicates: relations stay small). -/
 def comp (X Y : Rel) : Rel :=
-  X.flatMap fun pq => (Y.filter fun qr => qr.1 == pq.2).map fun qr => (pq.1, qr.2)
+  addNew [] (X.flatMap fun pq => (Y.filter fun qr => qr.1 == pq.2).map fun qr => (pq.1, qr.2))
 
 def subRel (X Y : Rel) : Bool := X.all fun e => Y.contains e
-
-def addNew (X Y : Rel) : Rel := Y.foldl (fun acc e => if acc.contains e then acc else acc ++ [e]) X
 
 /-- Least relation containing `X` and closed under prefixing by `R`, if found within the fuel. -/
 def starRel (R : Rel) : Nat → Rel → Option Rel
@@ -122,7 +122,7 @@ def Dfa.rel (d : Dfa) : Re → Option Rel
     | some X, some Y => some (comp X Y)
     | _, _ => none
   | .alt a b => match d.rel a, d.rel b with
-    | some X, some Y => some (X ++ Y)
+    | some X, some Y => some (addNew X Y)
     | _, _ => none
   | .star a => match d.rel a with
     | some R => starRel R (d.states * d.states + 1) d.idRel
